@@ -100,6 +100,8 @@ def request_of(sc):
                        for i, (f, t, rx) in enumerate(sc["arr"])]}
     if sc.get("cap"):
         rq["cap"] = sc["cap"]       # small output channel: the consumer exerts back-pressure
+    if sc.get("burst", 0) > 1:
+        rq["burst"] = sc["burst"]   # queued bursts: this many arrivals enqueued before the task runs
     return rq
 
 
@@ -117,12 +119,24 @@ def events_of(sc, reply):
     evs = [{"e": "reset", "w": sc["w"]}]
     outs = reply.get("out", []) if reply else []
     n_arr = len(sc["arr"])
-    for i, (f, t, rx) in enumerate(sc["arr"]):
-        if i >= len(outs):
-            break
-        evs.append({"e": "arrive", "id": i + 1, "f": f, "t": t, "rx": rx,
-                    "out": [convert_record(r, hex2idx, ts2tick) for r in outs[i]]})
-    crashed = reply is None or bool(reply.get("panic")) or len(outs) != n_arr
+    k = sc.get("burst", 0)
+    if k > 1:
+        groups = [list(range(b, min(n_arr, b + k))) for b in range(0, n_arr, k)]
+        for g, idx in enumerate(groups):
+            if g >= len(outs):
+                break
+            evs.append({"e": "burst",
+                        "arr": [{"id": i + 1, "f": sc["arr"][i][0], "t": sc["arr"][i][1], "rx": sc["arr"][i][2]} for i in idx],
+                        "out": [convert_record(r, hex2idx, ts2tick) for r in outs[g]]})
+        n_expected = len(groups)
+    else:
+        for i, (f, t, rx) in enumerate(sc["arr"]):
+            if i >= len(outs):
+                break
+            evs.append({"e": "arrive", "id": i + 1, "f": f, "t": t, "rx": rx,
+                        "out": [convert_record(r, hex2idx, ts2tick) for r in outs[i]]})
+        n_expected = n_arr
+    crashed = reply is None or bool(reply.get("panic")) or len(outs) != n_expected
     evs.append({"e": "close", "panic": crashed,
                 "out": [convert_record(r, hex2idx, ts2tick) for r in (reply or {}).get("after_close", [])]})
     return evs
@@ -213,7 +227,8 @@ def replay_case(sc, reply, stage):
             "spec_allows": "Insert;Pop* of spec/Dedup.tla per arrival (ties in any order), open groups pending at close; "
                            "PropConservation/PropShape/PropWindow/PropMono over the whole history",
             "output_channel_capacity": sc.get("cap") or "n+1 (never full)",
-            "scenario": {"tag": sc["tag"], "w": sc["w"], "epoch": sc["epoch"], "cap": sc.get("cap", 0),
+            "queued_burst_size": sc.get("burst", 0) or "none (one arrival at a time)",
+            "scenario": {"tag": sc["tag"], "w": sc["w"], "epoch": sc["epoch"], "cap": sc.get("cap", 0), "burst": sc.get("burst", 0),
                          "arr": [list(a) for a in sc["arr"]]}}
 
 
@@ -286,20 +301,19 @@ class Stats:
                 self.nontrivial.add(key)
 
 
-def process(run, scenarios, procs, stats, name, twice=False):
-    """Replay one batch through the real code and validate it."""
+def process(run, scenarios, procs, stats, name, meanwhile=None):
+    """Replay one batch through the real code and validate it; `meanwhile(replies)` (further
+    replays of the same batch) runs while TLC validates."""
     t0 = time.time()
     replies = run_driver(scenarios, procs)
-    if twice:      # per-arrival attribution must be reproducible
-        again = run_driver(scenarios, procs)
-        for i, (a, b) in enumerate(zip(replies, again)):
-            if a != b:
-                raise core.ToolError(f"driver output not reproducible for scenario {i} ({scenarios[i]['tag']}): "
-                                     "per-arrival attribution is fragile")
     t1 = time.time()
-    rejected, n_events = validate_scenarios(run, scenarios, replies, procs, name=name)
-    core.log(f"{name}: {len(scenarios)} scenarios replayed in {t1 - t0:.1f}s, {n_events} events validated in "
-             f"{time.time() - t1:.1f}s, {len(rejected)} rejected")
+    with cf.ThreadPoolExecutor(max_workers=1) as side:
+        fut = side.submit(meanwhile, replies) if meanwhile else None
+        rejected, n_events = validate_scenarios(run, scenarios, replies, procs, name=name)
+        if fut:
+            fut.result()
+    core.log(f"{name}: {len(scenarios)} scenarios replayed in {t1 - t0:.1f}s, {n_events} events validated "
+             f"(+ side replays) in {time.time() - t1:.1f}s, {len(rejected)} rejected")
     report_rejections(run, scenarios, replies, rejected)
     stats.add(scenarios, replies)
     stats.events += n_events
@@ -330,6 +344,38 @@ def process_capped(run, scenarios, base, caps, procs, bp, name):
             report_rejections(run, sub, subr, rejected)
             bp["rejected"] += len(rejected)
         core.log(f"{name} cap={cap}: {len(capped)} replays, {len(diff)} recordings differ from the default-capacity one")
+
+
+def process_burst(run, scenarios, base, sizes, procs, qb, name):
+    """Queued bursts: the same histories with `size` arrivals enqueued before the dedup task
+    runs (size 0 = the whole history at once).  Queued receptions keep their own timestamps,
+    so the output must be what one-at-a-time processing gives.  A burst recording whose
+    records are, burst by burst, the concatenation of the already validated per-arrival
+    recording shares its verdict (the same split explains it); any other recording is judged
+    by Trace_Dedup!BurstEv (sequential explanation, ties free) and the declarative judge."""
+    for size in sizes:
+        burst = [dict(sc, burst=(size or max(2, len(sc["arr"]))), tag=f"{sc['tag']}:burst{size or 'all'}")
+                 for sc in scenarios]
+        replies = run_driver(burst, procs)
+        diff = []
+        for i, (sc, rp, b) in enumerate(zip(burst, replies, base)):
+            k, same = sc["burst"], rp is not None and b is not None
+            if same:
+                bo = b.get("out", [])
+                cat = [[r for per in bo[g:g + k] for r in per] for g in range(0, len(bo), k)]
+                same = (cat == rp.get("out") and rp.get("after_close") == b.get("after_close")
+                        and rp.get("panic") == b.get("panic"))
+            if not same:
+                diff.append(i)
+        qb["replays"] += len(burst)
+        qb["same_records_as_validated_recording"] += len(burst) - len(diff)
+        qb["validated_separately"] += len(diff)
+        if diff:
+            sub, subr = [burst[i] for i in diff], [replies[i] for i in diff]
+            rejected, _n = validate_scenarios(run, sub, subr, procs, name=f"{name}.burst{size}")
+            report_rejections(run, sub, subr, rejected)
+            qb["rejected"] += len(rejected)
+        core.log(f"{name} burst={size or 'all'}: {len(burst)} replays, {len(diff)} recordings differ from the one-at-a-time one")
 
 
 SELFTEST_VEC = {"w": 2, "tpm": 1, "h": [[0, 0, 0], [1, 0, 1], [0, 1, 1], [512, 1, 0], [0, 2, 0], [1, 3, 1], [0, 5, 0], [1, 6, 1]]}
@@ -398,7 +444,7 @@ def check(run):
     procs = 8 if thorough else 4
     core.build_jet()
     fam = ["thorough_a", "thorough_b", "thorough_c"] if thorough else ["quick_a", "quick_b", "quick_c"]
-    n_long = 96 if thorough else 20
+    n_long = 96 if thorough else 12
     n_burst = 16 if thorough else 4
     stats = Stats()
 
@@ -430,12 +476,17 @@ def check(run):
     with cf.ThreadPoolExecutor(max_workers=1) as bg:
         f_mc = bg.submit(model_check, run, thorough)
         selftest = self_test(run)
-        rp = process(run, special, procs, stats, "special", twice=True)
         bp = {"replays": 0, "identical_to_validated_recording": 0, "validated_separately": 0, "rejected": 0,
               "max_records_at_one_arrival": 0, "arrivals_closing_ge_3cap_groups": 0}
-        process_capped(run, special, rp, [2], procs, bp, "special")
+        qb = {"replays": 0, "same_records_as_validated_recording": 0, "validated_separately": 0, "rejected": 0}
         nb = len(longs)
-        process_capped(run, special[nb:nb + len(bursts)], rp[nb:nb + len(bursts)], [1, 4], procs, bp, "burst")
+
+        def special_side(rp):
+            process_capped(run, special, rp, [2], procs, bp, "special")
+            process_capped(run, special[nb:nb + len(bursts)], rp[nb:nb + len(bursts)], [1, 4], procs, bp, "burst")
+            process_burst(run, special, rp, [3, 8, 64, 0], procs, qb, "special")
+
+        rp = process(run, special, procs, stats, "special", meanwhile=special_side)
         if bp["arrivals_closing_ge_3cap_groups"] < 10:
             raise core.ToolError("back-pressure scenarios lost their teeth: no arrival closes >= 3*cap groups")
         samples.append({"tag": special[0]["tag"], "w_ms": special[0]["w"], "epoch_s": special[0]["epoch"],
@@ -452,9 +503,12 @@ def check(run):
             for b0 in range(0, len(lines), BATCH):
                 batch = [scenario(json.loads(json.loads(ln)), "exhaustive:" + c, must_be_exact=True)
                          for ln in lines[b0:b0 + BATCH]]
-                rp = process(run, batch, procs, stats, f"{c}.{b0 // BATCH}")
-                if c.endswith("_b"):
-                    process_capped(run, batch, rp, [1], procs, bp, c)
+                def side(rp, batch=batch, c=c, b0=b0):
+                    if c.endswith("_b"):
+                        process_capped(run, batch, rp, [1], procs, bp, c)
+                    process_burst(run, batch, rp, [0], procs, qb, f"{c}.{b0 // BATCH}")
+
+                rp = process(run, batch, procs, stats, f"{c}.{b0 // BATCH}", meanwhile=side)
                 if b0 == 0:
                     k = len(batch) * 2 // 3
                     samples.append({"tag": batch[k]["tag"], "w_ms": batch[k]["w"],
@@ -486,7 +540,7 @@ def check(run):
         "spec_mutants_refuted": att_info,
         "binding_self_test": selftest,
         "back_pressure": bp,
-        "attribution_reproducible_on": len(special),
+        "queued_bursts": qb,
         "exhaustive": False,
         "exhaustive_parts": "spec: all histories <= the MC bounds with all tie orders and an optional flush at close; "
                             "code: all histories of Gen_Dedup_*.cfg (receiver pattern fixed beyond the FullRx bound)",
@@ -502,11 +556,21 @@ def check(run):
         "an implementation that flushes them as complete groups is accepted as well)",
         "frames declared decodable are DF17 frames from the repository's tests or built with the Mode S parity; undecodable "
         "ones have a flipped parity bit or are truncated; the emitted record's decoded payload is not judged here",
+        "queued-burst replays (3, 8, 64 or all arrivals enqueued before the dedup task runs): queued receptions keep their "
+        "own timestamps, so the output must equal one-at-a-time processing; a burst recording whose records are the "
+        "concatenation of the validated per-arrival recording shares its verdict, any other is judged by Trace_Dedup!BurstEv",
         "back-pressure replays (output channel capacity 1, 2, 4): a recording identical to the default-capacity recording "
         "of the same history shares its verdict; differing recordings are validated on their own",
         "per-arrival attribution relies on the driver yielding to the dedup task after each send (current-thread runtime); "
         "checked reproducible on the long/attack histories each run (and 20x during development, up to 400 records at one arrival)",
     ]
+
+    # end-to-end segment: the real jet1090 binary over loopback TCP, judged by Trace_Pipeline for the
+    # clauses of Pipeline.tla that restate this property through main.rs's wiring (see _e2e.py)
+    from . import _e2e
+    n_e2e = 40 if run.tier == "thorough" else 0
+    if n_e2e:
+        _e2e.segment(run, n_e2e)
 
 
 def replay(run, path):
@@ -515,7 +579,7 @@ def replay(run, path):
     scenarios = []
     for case in rep.get("cases", []):
         s = case["scenario"]
-        scenarios.append({"tag": s["tag"], "w": s["w"], "epoch": s["epoch"], "cap": s.get("cap", 0),
+        scenarios.append({"tag": s["tag"], "w": s["w"], "epoch": s["epoch"], "cap": s.get("cap", 0), "burst": s.get("burst", 0),
                           "arr": [tuple(a) for a in s["arr"]]})
     if not scenarios:
         raise core.ToolError("replay file has no cases")
